@@ -58,6 +58,12 @@ impl Prop for C03 {
     fn id(&self) -> &'static str {
         "C03"
     }
+    fn fuzz_target(&self) -> Option<&'static str> {
+        Some("fz_choices")
+    }
+    fn fuzz_runs(&self) -> u64 {
+        60_000
+    }
     fn stream_len(&self, _tier: Tier) -> usize {
         300
     }
@@ -367,7 +373,7 @@ impl Prop for C03 {
             // For a third of the mismatching cases an earlier, lenient build process
             // (error_on_conflicts(false)) has already left a module at the output path: the strict
             // build that follows must still fail (it must not be served from that module).
-            if should_fail && (sr + rr) > 0 && n % 3 == 0 {
+            if should_fail && (sr + rr) > 0 && n % 3 == 0 && !crate::exec::IN_FUZZ.load(Ordering::SeqCst) {
                 let lp = dir.join(format!("g{n}.l"));
                 std::fs::write(&lp, "%%\nx ;\n").unwrap();
                 let spec = crate::ctstep::CtSpec {
